@@ -259,6 +259,7 @@ def _joins(model, rep):
     _extrusion(model, rep)
     _join_coordinates(model, rep)
     _higher_order_surgery(model, rep)
+    _tag_array_dtype(model, rep)
 
 
 def _join_coordinates(model, rep):
@@ -434,6 +435,72 @@ def _join_coordinates(model, rep):
        f"are merged for a small mesh in large units or far from the origin "
        f"(cells collapse), or coincident ones are kept apart",
        calls[0].lineno)
+
+
+def _tag_array_dtype(model, rep):
+    """Named boundaries / subdomains are index arrays.  np.array of a list
+    built at run time has dtype float64 when the list is empty - a tag that
+    selects nothing (restrict() produces them) - and a float array cannot
+    index: every later restrict / refined / FacetBasis on the *whole* mesh
+    raises IndexError.  Every np.array(<list display / comprehension>) that
+    flows into a tag dictionary of a mesh module needs an explicit integer
+    dtype (or an integer conversion on the way)."""
+    R1 = "C18-R1"
+    n = 0
+    for fn in model.all_functions():
+        if not fn.path.startswith("skfem/mesh/"):
+            continue
+        tagvars = set()
+        for c in walk_no_nested(fn.node):
+            if isinstance(c, ast.Call):
+                for k in c.keywords:
+                    if k.arg in ("_boundaries", "_subdomains", "boundaries",
+                                 "subdomains") and isinstance(
+                            k.value, ast.Name):
+                        tagvars.add(k.value.id)
+        if not tagvars:
+            continue
+        for st in walk_no_nested(fn.node):
+            vals = []
+            if isinstance(st, ast.Assign) and len(st.targets) == 1:
+                t = st.targets[0]
+                if isinstance(t, ast.Subscript) and isinstance(
+                        t.value, ast.Name) and t.value.id in tagvars:
+                    vals = [st.value]
+                elif isinstance(t, ast.Name) and t.id in tagvars and \
+                        isinstance(st.value, ast.DictComp):
+                    vals = [st.value.value]
+            for v in vals:
+                for c in ast.walk(v):
+                    if not (isinstance(c, ast.Call) and src(c.func) in (
+                            "np.array", "np.asarray", "numpy.array")
+                            and c.args and isinstance(
+                                c.args[0], (ast.ListComp, ast.List,
+                                            ast.GeneratorExp))):
+                        continue
+                    if isinstance(c.args[0], ast.List) and c.args[0].elts \
+                            and all(isinstance(e, ast.Constant)
+                                    for e in c.args[0].elts):
+                        continue
+                    n += 1
+                    typed = any(k.arg == "dtype" for k in c.keywords) or \
+                        len(c.args) > 1
+                    cons = f"{fn.short()}:{src(st.targets[0])}:integer-tags"
+                    if typed:
+                        rep.ok(R1, cons, "tag array built from a list with "
+                               "an explicit dtype")
+                    else:
+                        rep.fail(R1, fn.path, fn.short(), cons,
+                                 f"'{src(st.targets[0])} = np.array([...])' "
+                                 f"without a dtype: for a named set that "
+                                 f"selects nothing the list is empty and the "
+                                 f"tag becomes a float64 array - restrict, "
+                                 f"refined, FacetBasis on the resulting mesh "
+                                 f"raise IndexError (for every tag, not just "
+                                 f"the empty one)", c.lineno)
+    if n < 1:
+        raise AnalysisError("no tag array built from a run-time list found "
+                            "(MeshQuad1.to_meshtri confirmed by hand)")
 
 
 def _higher_order_surgery(model, rep):
@@ -1104,6 +1171,9 @@ def run(model: Model, rep, tier: str) -> None:
 _QU = "skfem/mesh/mesh_quad_1.py"
 _HE = "skfem/mesh/mesh_hex_1.py"
 MUTANTS = [
+    ("to_meshtri builds boundary tags without a dtype",
+     (_QU, "self.boundaries[k])]],\n                    dtype=np.int32)",
+      "self.boundaries[k])]])"), "C18-R1"),
     ("joined mesh built from the rounded key",
      (FM, "        return cls(*self._remove_duplicate_nodes(p, t, key=key))",
       "        return cls(*self._remove_duplicate_nodes(key, t))"), "C18-R3"),
@@ -1241,6 +1311,9 @@ MUTANTS = [
 _SWAP = ("        t0 = t[0, flip]\n        t1 = t[1, flip]\n"
          "        t[0, flip] = t1\n        t[1, flip] = t0\n")
 TWINS = [
+    ("to_meshtri builds boundary tags as int64",
+     (_QU, "self.boundaries[k])]],\n                    dtype=np.int32)",
+      "self.boundaries[k])]], dtype=np.int64)")),
     ("merge key from the per-axis extent of the joined points",
      (FM, "        scale = (p - origin).max() or 1.",
       "        scale = (p.max(axis=1, keepdims=True) - origin).max() or 1.")),
